@@ -5,11 +5,12 @@
 // loads chunk_snapshot.<seg>.<offset> and replays the WAL only from that position), copy B after the
 // chunk_snapshot.* directories were removed (full WAL replay).
 //
-// ops:  cfg <chunkRange> <oooWindow> <samplesPerChunk>      (first line of a case; opens the DB)
+// ops:  cfg <chunkRange> <oooWindow> <samplesPerChunk> [<oooCapMax>]   (first line of a case; opens the DB)
 //
 //	begin | app <s> <t> <vbits-hex> | commit | rollback
 //	ex <s> <t> <vbits-hex> <id>          AppendExemplar on the open appender  -> "-"  (| res=<class>)
 //	del <mint> <maxt> <s|*> | compact | cleantomb | cooo (CompactOOOHead)
+//	mmap                                 DB.ForceHeadMMap (the periodic m-mapping pass)          (msnap only)
 //	reopen                               clean Close (writes a snapshot) + Open (loads it)
 //	q <mint> <maxt>  -> rows             win -> <headMinT> <headMaxT> <appendableMinValid|uninit>
 //	snapq <mode> <mint> <maxt>
@@ -29,6 +30,12 @@
 // Stream osnap (-x stream=ooo): out-of-order ingestion, CompactOOOHead, CleanTombstones, longer
 // histories (WAL checkpoints), all damage modes. No model: every output line is "-" and all
 // observations travel in the data part (`… | out=<what the op printed>`).
+//
+// Stream msnap (-x stream=mm, generators in mm.go): series that have NO in-order head chunk when the
+// snapshot is written (only out-of-order samples, with 0..n m-mapped out-of-order chunks around the
+// OutOfOrderCapMax boundaries; created by a rolled-back append; in-order head chunk already covered by
+// an m-mapped chunk) next to ordinary ones, clean shutdown and snapshot + WAL/WBL tail, continuation
+// with new series after the restart. Judged only, against the acknowledged samples.
 package main
 
 import (
@@ -478,6 +485,10 @@ func (e *env) exec(c *h.Ctx, f []string) (out, data string) {
 		out = errClass(e.db.CompactOOOHead(context.Background()))
 	case "cleantomb":
 		out = errClass(e.db.CleanTombstones())
+	case "mmap":
+		// the periodic pass of DB.run: m-map every in-order head chunk except the newest of each series
+		e.db.ForceHeadMMap()
+		out = "ok"
 	case "reopen":
 		if e.app != nil {
 			e.app.Rollback()
@@ -545,6 +556,10 @@ func runCase(c *h.Ctx, ops []string, ooo bool) {
 				o.MinBlockDuration, o.MaxBlockDuration = cr, cr
 				o.OutOfOrderTimeWindow = oooW
 				o.SamplesPerChunk = spc
+				if len(f) > 4 { // stream mm: OutOfOrderCapMax (samples per out-of-order chunk; 0 = default 32)
+					oc, _ := strconv.ParseInt(f[4], 10, 64)
+					o.OutOfOrderCapMax = oc
+				}
 				o.RetentionDuration = 0
 				o.WALSegmentSize = 128 * 1024
 				o.StripeSize = 16
@@ -825,7 +840,8 @@ func gen(c *h.Ctx, r *h.Rng, maxOps int, ooo bool) []string {
 func main() {
 	c := h.Init()
 	defer c.Finish()
-	ooo := c.Extra["stream"] == "ooo"
+	mm := c.Extra["stream"] == "mm"
+	ooo := c.Extra["stream"] == "ooo" || mm // judged-only streams: observations travel in the data part
 	if c.Replay != "" {
 		for _, cs := range c.ReplayCases() {
 			c.Case(strings.TrimPrefix(cs[0], "case "))
@@ -836,6 +852,10 @@ func main() {
 	// Histories of the modelled stream stay short (DbModel keeps the whole WAL; tsdb checkpoints it
 	// after a few compactions — see checks/C53.json); the judged-only stream uses long ones so that
 	// WAL checkpoints newer than the snapshot occur.
+	if mm {
+		runMM(c)
+		return
+	}
 	maxOps := 40
 	if ooo {
 		maxOps = 90
